@@ -422,16 +422,14 @@ def run(tier, replay):
                            "(every YAML shape on the asan and on the NDEBUG fuzz flavor); distinct non-trivial = distinct inputs kept in the corpora because "
                            "they reached new coverage features + distinct YAML documents")
         for name in ("fz_manifest", "fz_lexer"):
-            cdir = os.path.join(sd, "corpus", name)
+            cdir = os.path.join(sd, "corpus", name, "0")
             best = None
-            for root, _, files in os.walk(cdir):
-                for f in sorted(files)[:50]:
-                    b = open(os.path.join(root, f), "rb").read()
-                    if 40 < len(b) < 400 and (best is None or b.count(b"\n") > best.count(b"\n")):
-                        best = b
-                break
+            for f in sorted(os.listdir(cdir))[:200] if os.path.isdir(cdir) else []:
+                b = open(os.path.join(cdir, f), "rb").read()
+                if 40 < len(b) < 400 and (best is None or b.count(b"\n") > best.count(b"\n")):
+                    best = b
             if best is not None:
-                chk.sample({"target": name, "corpus_unit": best.decode("latin-1")})
+                chk.sample({"target": name, "corpus_unit_found_by_mutation": best.decode("latin-1")})
         for cat, text in shapes:
             if cat == "wrong-kind-at-position" and len(text) < 600:
                 chk.sample({"target": "buildsystem-parse", "shape": cat, "yaml": text})
